@@ -866,6 +866,7 @@ class BisectionZD(Bisection1D):
         self.coordinates_domain_nested = coordinates_domain_nested
         self.nested_fieldDescriptors = field_descriptors
         self.calculated_temperatures_nested = {}
+        self.selection_keys_nested = {}
         # Tack on one borehole at the beginning to provide a high excess
         # temperature
         outer_domain = [coordinates_domain_nested[0][0]]
@@ -901,6 +902,7 @@ class BisectionZD(Bisection1D):
             except ValueError:
                 break
             self.calculated_temperatures_nested[i] = self.calculated_temperatures
+            self.selection_keys_nested[i] = selection_key
 
             self.ghe.compute_g_functions()
             self.ghe.size(method=TimestepType.HYBRID)
@@ -924,14 +926,9 @@ class BisectionZD(Bisection1D):
         selection_key_outer = keys[idx]
         self.calculated_temperatures = self.calculated_temperatures_nested[selection_key_outer]
 
-        keys = list(self.calculated_temperatures.keys())
-        values = list(self.calculated_temperatures.values())
-
-        negative_excess_values = [v for v in values if v <= 0.0]
-
-        excess_of_interest = max(negative_excess_values)
-        idx = values.index(excess_of_interest)
-        selection_key = keys[idx]
+        # the field search() selected in that list; when the design is unmet and the user asked to continue
+        # this is the smallest / largest available field and no evaluated excess is negative
+        selection_key = self.selection_keys_nested[selection_key_outer]
         selected_coordinates = self.coordinates_domain_nested[selection_key_outer][selection_key]
 
         self.initialize_ghe(
